@@ -15,6 +15,7 @@ package main
 import (
 	"bytes"
 	"fmt"
+	"os"
 	"runtime/debug"
 	"strings"
 	"time"
@@ -196,6 +197,11 @@ func hostilePhase(thorough bool) {
 				propFail("C03", sig, fmt.Sprintf("case=%s mode=%s: STEF->OTLP conversion panicked (%s) at %s; %s; stream=%x", name, mode.name, res.pan, res.site, desc, clipBytes(stream)))
 			case "hang":
 				propFail("C03", "converter-hang", fmt.Sprintf("case=%s mode=%s: no result after 5 s; %s; stream=%x", name, mode.name, desc, clipBytes(stream)))
+				// the goroutine that hangs cannot be stopped and may allocate without bound:
+				// report what was found so far and end the harness instead of being killed
+				note("stopped after a hang")
+				out.Flush()
+				os.Exit(0)
 			}
 		}
 	}
